@@ -52,6 +52,19 @@ def cbmc_once(job, strat, kind, witness, trace, timeout, gfix=None, xtra=()):
 
 
 def guard_splits(job, strat, kind):
+    gs = guard_splits_(job, strat, kind)
+    ix = job.unit.index[job.h]
+    ts = (ix.get('tsites_by_kind') or {}).get(kind) or (ix.get('tsites_by_kind') or {}).get(str(kind)) or []
+    if 'T' not in strat or not ts or kind is None: return gs
+    # T: additionally one query per throwing position the reference passes, plus one for 'none of them'
+    out = []
+    for g in gs:
+        m, v = (g[0], g[1]) if g else (0, 0)
+        out += [(m, v, ('=', t)) for t in ts] + [(m, v, ('!', tuple(ts)))]
+    return out
+
+
+def guard_splits_(job, strat, kind):
     if kind is None or ('g' not in strat and 'G' not in strat): return [None]
     decs = job.unit.index[job.h].get('decs_by_kind', {}).get(kind) or job.unit.index[job.h].get('decs_by_kind', {}).get(str(kind)) or []
     decs = [d for d in decs if d]
@@ -88,7 +101,21 @@ def attempt(job, strat, timeout):
     if 'k' in strat and (job.unit.nevents > 1 or nalt > 1):
         subs = []
         if has_ev: subs += [(k, gfix, 0 if nalt > 1 else None) for k in range(job.unit.nevents) for gfix in guard_splits(job, strat, k)]
-        subs += [(None, None, a) for a in range(1 if has_ev else 0, nalt)]
+        for a in range(1 if has_ev else 0, nalt):
+            dl = (ix.get('decs_by_alt') or {}).get(a) or (ix.get('decs_by_alt') or {}).get(str(a)) or []
+            if 'G' in strat and dl:
+                # one query per reference path of a non-event step: consulted guard sites fixed; the throwing position fixed to the
+                # one the path throws at, or constrained to be none of the positions the path passes (complete partition)
+                seen_ = set()
+                for d in dl:
+                    mask = sum(1 << s_ for s_, _ in d if s_ < 1000); val = sum(1 << s_ for s_, v in d if v and s_ < 1000)
+                    thrown = [s_ - 1000 for s_, v in d if s_ >= 1000 and v]
+                    passed = [s_ - 1000 for s_, v in d if s_ >= 1000 and not v]
+                    ts = ('=', thrown[0]) if thrown else ('!', tuple(sorted(passed)))
+                    if (mask, val, ts) in seen_: continue
+                    seen_.add((mask, val, ts)); subs.append((None, (mask, val, ts), a))
+            else:
+                subs.append((None, None, a))
     else:
         subs = [(None, None, None)]
     if ix.get('copy_modes') and 'k' in strat:
@@ -101,6 +128,10 @@ def attempt(job, strat, timeout):
             sel, cm, w = sel
             xtra += ['-DVF_CMODE=%d' % cm, '-DVF_WHICH=%d' % w]
         if sel is not None: xtra += ['-DVF_SEL=%d' % sel]
+        if gfix is not None and len(gfix) == 3:
+            ts = gfix[2]; gfix = gfix[:2]
+            if ts[0] == '=': xtra += ['-DVF_TSITE=%d' % ts[1]]
+            elif ts[1]: xtra += ['-DVF_TSITE_COND=(%s)' % '&&'.join('t!=%d' % x for x in ts[1])]
         r = cbmc_once(job, strat, k, True, False, timeout, gfix, xtra)
         if r['verdict'] == 'failed' and any('witness:reachable' not in f[1] for f in r['failed']):
             # obtain one counterexample per failed assertion
@@ -168,6 +199,11 @@ def match_known(known, prop, rec):
     return None
 
 
+def uses_undef(u):
+    try: return any('LL2C_UNDEF()' in open(pt['genc'] if 'genc' in pt else u.genc).read() for pt in u.parts)
+    except Exception: return False
+
+
 def replay_native(u, h, inputs):
     rc, out = u.run_native(u.exe_real, h, inputs, True)
     return rc, out
@@ -207,17 +243,22 @@ class Check:
         t = time.time()
         with cf.ThreadPoolExecutor(NPAR) as ex:
             list(ex.map(run_job, s.jobs))
-        # a failed query in a configuration for which an open known finding is registered: re-run it split as finely as possible
-        # (per event kind, reference path, copy mode, driven machine) so that every sub-query gets its own counterexample and
-        # the known finding cannot mask a different violation
-        known = [k for k in load_known() if k.get('status') == 'open' and k['property'] == s.prop]
-        redo = [j for j in s.jobs if j.res['verdict'] == 'failed' and 'G' not in j.res.get('strategy', 'n') and
-                any((not k.get('program') or k['program'] == j.unit.name) and (not k.get('backends') or j.unit.be in k['backends'])
-                    and (not k.get('conf_re') or re.search(k['conf_re'], j.unit.index[j.h]['conf'])) for k in known)]
+        # a failed query in a configuration for which an open known finding is registered is proved again with exactly the
+        # registered inputs excluded (the finding's "exclude" condition over K = event kind, T = throwing position, W = driven
+        # machine, M = copy mode): a different violation in the same configuration is then still found and reported
+        known = [k for k in load_known() if k.get('status') == 'open' and k['property'] == s.prop and k.get('exclude')]
+        redo = []
+        for j in s.jobs:
+            if j.res['verdict'] != 'failed': continue
+            for k in known:
+                if (not k.get('program') or k['program'] == j.unit.name) and (not k.get('backends') or j.unit.be in k['backends']) \
+                        and (not k.get('conf_re') or re.search(k['conf_re'], j.unit.index[j.h]['conf'])):
+                    j2 = Job(j.unit, j.h, unwind=j.unwind, timeout=j.timeout, extra=tuple(j.extra) + ('-DVF_EXCLUDE=(%s)' % k['exclude'],), strats=[j.res.get('strategy', 'n')] + list(j.strats or STRATS))
+                    j2.label = j.label; j.excl = j2; redo.append(j2); break
         if redo:
-            log('[%s] %d failed queries in configurations with a registered known finding are re-run split (strategy nkG)' % (s.prop, len(redo)))
+            log('[%s] %d failed queries in configurations with a registered known finding are proved again with the registered inputs excluded' % (s.prop, len(redo)))
             with cf.ThreadPoolExecutor(NPAR) as ex:
-                list(ex.map(lambda j: run_job(j, force='nkG'), redo))
+                list(ex.map(run_job, redo))
         s.t_solve = time.time() - t
 
     def finish(s, samples_extra=None):
@@ -226,7 +267,7 @@ class Check:
         nontrivial = 0
         solver_s = 0.0; vccs = 0; vccs_rem = 0; props = 0
         os.makedirs(os.path.join(VERIF, 'replays'), exist_ok=True)
-        for j in s.jobs:
+        for j in list(s.jobs) + [j.excl for j in s.jobs if getattr(j, 'excl', None)]:
             r = j.res
             solver_s += r.get('solver_s', 0.0) or 0.0
             if r.get('vccs'): vccs += r['vccs'][0]; vccs_rem += r['vccs'][1]
@@ -262,6 +303,14 @@ class Check:
                     rc, out = replay_native(u, j.h, cex['inputs'])
                     reproduced = ('CHECK-FAILED ' + lab) in out or (lab.startswith('env:') and rc not in (0, 1, 77)) or \
                                  (rc not in (0, 77) and 'CHECK-FAILED' in out and lab.split(':')[0] in out)
+                if not reproduced and u.be != 'K' and not MEMSAFE.search(lab) and uses_undef(u):
+                    # the translation unit contains indeterminate values (LLVM undef -> nondet): replay under MemorySanitizer
+                    rc2, out2 = u.run_native_msan(j.h, cex['inputs'])
+                    m_ = re.search(r'MemorySanitizer: use-of-uninitialized-value\s*\n\s*#0 \S+ in (.{0,200}?) (/\S+:\d+)', out2)
+                    if m_ and '/boost/msm/' in m_.group(2):
+                        reproduced = True
+                        lab = rec['label'] = 'uninitialised-value at %s (%s)' % (m_.group(2).replace('/repo/include/', ''), lab)
+                        out = out2[:1500]
                 rec['native_output'] = out[-1500:]
                 if not reproduced:
                     inconclusive.append((j, 'counterexample for "%s" did not reproduce on the native build (encoding error?) inputs=%s' % (lab, cex['inputs'][:6])))
@@ -353,7 +402,7 @@ class Check:
         }
         ev['coverage'].update(s.extra_cov)
         os.makedirs(os.path.join(VERIF, 'evidence'), exist_ok=True)
-        json.dump(ev, open(os.path.join(VERIF, 'evidence', s.prop + '.json'), 'w'), indent=1)
+        json.dump(ev, open(getattr(s, 'evidence_path', None) or os.path.join(VERIF, 'evidence', s.prop + '.json'), 'w'), indent=1)
         log('[%s] tier=%s queries=%d success=%d nontrivial=%d known=%d violations=%d inconclusive=%d wall=%.0fs (build %.0fs, cbmc %.0fs, solver %.1fs)' % (
             s.prop, s.tier, len(s.jobs), ev['coverage']['queries_success'], nontrivial, len(knowns), len(violations), len(inconclusive), wall,
             getattr(s, 't_build', 0), getattr(s, 't_solve', 0), solver_s))
